@@ -25,3 +25,22 @@ pub fn log_powf32(base: f32, arg: f32, result: f32) {
 pub fn take_powf32_log() -> Vec<(u32, u32, u32)> {
 	POWF32_LOG.with(|log| std::mem::take(&mut *log.borrow_mut()))
 }
+
+/// A named point between two steps of a cross-thread protocol. A no-op unless a hook is
+/// installed with [`set_yield_hook`]; the harness uses it to hold one thread at that point.
+pub fn yield_point(name: &'static str) {
+	let hook = YIELD_HOOK.read().unwrap_or_else(|e| e.into_inner()).clone();
+	if let Some(hook) = hook {
+		hook(name);
+	}
+}
+
+/// Installs (`Some`) or removes (`None`) the callback run at every [`yield_point`].
+pub fn set_yield_hook(hook: Option<YieldHook>) {
+	*YIELD_HOOK.write().unwrap_or_else(|e| e.into_inner()) = hook;
+}
+
+/// The callback type of [`set_yield_hook`].
+pub type YieldHook = std::sync::Arc<dyn Fn(&'static str) + Send + Sync>;
+
+static YIELD_HOOK: std::sync::RwLock<Option<YieldHook>> = std::sync::RwLock::new(None);
